@@ -82,7 +82,11 @@ def run_tlc(wd, root, cfg_text, name, workers=1, timeout=1800, extra=None, java_
     out = os.path.join(wd, name + ".out")
     md = os.path.join(wd, "md_" + name)
     shutil.rmtree(md, ignore_errors=True)
-    cmd = ["java", "-XX:+UseParallelGC"] + (java_opts or ["-Xmx8g"]) + ["-cp", TLA_CP, "tlc2.TLC",
+    # TLC unpacks its standard modules into a fresh directory under java.io.tmpdir at every start: keep that out of /tmp
+    jtmp = os.path.join(wd, "jtmp_" + name)
+    shutil.rmtree(jtmp, ignore_errors=True)
+    os.makedirs(jtmp, exist_ok=True)
+    cmd = ["java", "-XX:+UseParallelGC", "-Djava.io.tmpdir=" + jtmp] + (java_opts or ["-Xmx8g"]) + ["-cp", TLA_CP, "tlc2.TLC",
            "-workers", str(workers), "-metadir", md, "-cleanup", "-noGenerateSpecTE",
            "-config", cfg] + (extra or []) + [os.path.join(wd, root)]
     t0 = time.time()
@@ -94,6 +98,7 @@ def run_tlc(wd, root, cfg_text, name, workers=1, timeout=1800, extra=None, java_
         finally:
             # the states directory of a large run is tens of gigabytes: never leave it behind
             shutil.rmtree(md, ignore_errors=True)
+            shutil.rmtree(jtmp, ignore_errors=True)
     st = tlc_stats(out)
     st["wall_s"] = round(time.time() - t0, 1)
     st["exit"] = r.returncode
